@@ -780,7 +780,11 @@ func runMHistory(c *mHistCase, sum *core.Summary) {
 func replayMulti(in *core.Lines, args []string, seed int64, sum *core.Summary) error {
 	var types []string
 	ids := []int64{}
+	viewsOnly := false // views=1: only the wrapper views (views.go), once per reachable state
 	for _, a := range args {
+		if a == "views=1" {
+			viewsOnly = true
+		}
 		if strings.HasPrefix(a, "types=") {
 			types = strings.Split(a[6:], ",")
 		}
@@ -789,6 +793,8 @@ func replayMulti(in *core.Lines, args []string, seed int64, sum *core.Summary) e
 		}
 	}
 	states := map[string]*mFullState{}
+	views := map[string]*viewState{}
+	var viewOrder []string
 	var trans []*mTransRec
 	for {
 		b, ok := in.Next()
@@ -803,11 +809,32 @@ func replayMulti(in *core.Lines, args []string, seed int64, sum *core.Summary) e
 		}
 		switch probe.K {
 		case "s":
+			if viewsOnly {
+				continue
+			}
 			st := new(mFullState)
 			if err := json.Unmarshal(b, st); err != nil {
 				return err
 			}
 			states[mkey(st.Nodes, st.Lines)] = st
+		case "v":
+			if !viewsOnly {
+				continue
+			}
+			v := new(viewState)
+			if err := json.Unmarshal(b, v); err != nil {
+				return err
+			}
+			views[mkey(v.Nodes, v.Lines)] = v
+			viewOrder = append(viewOrder, mkey(v.Nodes, v.Lines))
+		case "mvh":
+			c := new(viewCase)
+			if err := json.Unmarshal(b, c); err != nil {
+				return err
+			}
+			runMViewHistory(c, sum)
+			sum.Cases++
+			sum.Nontrivial++
 		case "t":
 			t := new(mTransRec)
 			if err := json.Unmarshal(b, t); err != nil {
@@ -840,6 +867,27 @@ func replayMulti(in *core.Lines, args []string, seed int64, sum *core.Summary) e
 			}
 			path[tk] = append(append([]mOpRec{}, p...), t.Op)
 		}
+	}
+	if viewsOnly {
+		for _, sk := range viewOrder {
+			ops, ok := path[sk]
+			if !ok {
+				return fmt.Errorf("no history reaches the state %s", sk)
+			}
+			for _, ty := range types {
+				c := &viewCase{K: "mvh", Type: ty, MOps: ops, Expect: views[sk], IDs: ids}
+				runMViewHistory(c, sum)
+				sum.Cases++
+				if len(views[sk].Nodes) > 1 {
+					sum.Nontrivial++
+				}
+				if sum.Cases%997 == 1 {
+					sum.Sample(map[string]any{"type": ty, "history": ops, "views_of": mStateRec{Nodes: views[sk].Nodes, Lines: views[sk].Lines}})
+				}
+			}
+		}
+		sum.Count("model_states", len(views))
+		return nil
 	}
 	distinct := map[string]bool{}
 	for _, t := range trans {
